@@ -502,8 +502,8 @@ def particle_case(seed):
         particles = {}
         for c, n in counts.items():
             particles[c] = {"mass": nprng.uniform(1, 2, n), "identity": nprng.permutation(1000)[:n].astype("int32") + 1000 * c,
-                            "family": nprng.integers(0, 5, n).astype("int8"), "position_x": nprng.uniform(0, 1, n),
-                            "birth": nprng.integers(0, 10**10, n).astype("int64")}
+                            "family": nprng.integers(-3, 5, n).astype("int8"), "position_x": nprng.uniform(0, 1, n),
+                            "birth": nprng.integers(-10**10, 10**10, n).astype("int64")}
             for d in "yz"[: ndim - 1]:
                 particles[c]["position_" + d] = nprng.uniform(0, 1, n)
         rw.write_output(tmp, 1, octs, ndim=ndim, ncpu=ncpu, levelmin=2, levelmax=2, hydro_vars=["density", "pressure"],
@@ -549,7 +549,8 @@ def sink_case(seed):
     ndim = rng.choice([1, 2, 3])
     nsink = rng.choice([0, 1, 1, 2, 5])
     legacy = rng.random() < 0.4
-    unit_l, unit_d, unit_t = 2.0, 3.0, 5.0
+    # code units differ from case to case: the cases of one sweep run in one process (state kept between datasets shows)
+    unit_l, unit_d, unit_t = rng.choice([(2.0, 3.0, 5.0), (7.0, 0.5, 11.0), (1.0, 1.0, 1.0), (3.0e18, 1e-24, 3.0e13)])
     tmp = tempfile.mkdtemp(prefix="c14s_")
     try:
         octs = rw.build_tree(ndim, 2, 2, rng=rng, ncpu=1, variables=["density", "pressure"])
@@ -600,6 +601,17 @@ def replay_particles(case, model, rec):
             r = particle_case(300 + s)
         except Exception as e:
             r = {"what": "exception %r" % (e,), "input": {"seed": 300 + s}}
+        if r:
+            return {"reproduced": True, "input": r["input"], "observed": r["what"]}
+    return {"reproduced": False}
+
+
+def replay_sinks(case, model, rec):
+    for s in range(24):
+        try:
+            r = sink_case(500 + s)
+        except Exception as e:
+            r = {"what": "exception %r" % (e,), "input": {"seed": 500 + s}}
         if r:
             return {"reproduced": True, "input": r["input"], "observed": r["what"]}
     return {"reproduced": False}
